@@ -51,7 +51,7 @@ def meta_maker(rng, counter):
         k = rng.choice(["meta", "dep", "dep", "headc"])
         counter[0] += 1
         if k == "meta":
-            out.append({"k": "meta"})
+            out.append({"k": "meta", "repr": True} if rng.random() < 0.3 else {"k": "meta"})
         elif k == "dep":
             d = {"k": "dep", "name": rng.choice(["da", "db", "dc", "dd"]), "version": rng.choice(["1.0", "1.9", "1.10", "2.0"]),
                  "script": [{"src": "s%d.js" % counter[0]}]}
@@ -80,6 +80,10 @@ def renderings(obj, is_list):
     outs.append(str(obj))
     outs.append(obj.render()["html"])
     outs.append(obj._repr_html_())
+    # a whole document, minus what the dependencies themselves contribute to <head> (listing line and their own tags come
+    # after the user's head content): charset line, user head content and everything outside <head> must not change
+    import re as _re
+    outs.append(_re.sub(r"\s*<script type=\"application/html-dependencies\">.*?(?=\s*</head>)", "", ht.HTMLDocument(obj).render()["html"], flags=_re.S))
     if not is_list:
         outs.append(ht.TagList(obj).get_html_string())
         outs.append(ht.TagList("x", obj, "y").get_html_string(1))
@@ -167,6 +171,10 @@ ROUTES = ["ctor", "ctor", "ctor", "insert", "insert", "slice", "setitem", "tf", 
 
 
 def _check_case(ctx, base, points, makers, base_outs, route="ctor"):
+    if route == "display":
+        # a self-rendering object that is DISPLAYED is kept as HTML by the display hook (C17): it never enters the tree as
+        # a metadata node, so this route uses plain metadata only
+        makers = [[{k: v for k, v in m.items() if k != "repr"} for m in mk] for mk in makers]
     is_list = base["k"] == "list"
     if base_outs is None:
         base_outs = renderings(gen.build_root(base), is_list)
@@ -217,6 +225,9 @@ def special_bases(ids):
         {"k": "list", "t": "taglist", "c": [gen.TAG("div"), T(), gen.TAG("span", ws=False)]},
         {"k": "list", "t": "taglist", "c": [T(), gen.TAG("p", T()), {"k": "obj", "s": "o2;"}]},
         gen.TAG("ul", gen.TAG("li", T()), gen.TAG("li", gen.TAG("b", T(), ws=False)), gen.TAG("li")),
+        # documents' own structure: metadata next to / inside <html>, <head>, <body>
+        gen.TAG("html", gen.TAG("head", gen.TAG("meta", attrs=[["charset", {"t": "str", "s": "utf-8"}]]), gen.TAG("title", T())), gen.TAG("body", T())),
+        gen.TAG("html", gen.TAG("body", gen.TAG("p", T()))), gen.TAG("body", T(), gen.TAG("div", T())), gen.TAG("head", gen.TAG("title", T())),
         # content that itself contains empty lines / repeated line separators
         gen.TAG("div", {"k": "text", "s": "x\n\ny"}, gen.TAG("p", T())), gen.TAG("pre", {"k": "text", "s": "\n\nkeep\n\n"}, ws=False),
         gen.TAG("style", {"k": "text", "s": "a{}\n\n\nb{}"}, {"k": "text", "s": "\n\n"}), gen.TAG("div", {"k": "html", "s": "<i>h</i>\r\n\r\n"}, T()),
